@@ -27,6 +27,19 @@ def _certs(ns, k, slot, tiers):
     }
 
 Q, T = ["quick", "thorough"], ["thorough"]
+
+_g = importlib.util.spec_from_file_location("c08gen", os.path.join(os.path.dirname(os.path.abspath(__file__)), "gen.py")); _gen = importlib.util.module_from_spec(_g); _g.loader.exec_module(_gen)
+# inductive-step harnesses over concrete link structures (3 slots): which are registered is decided by STEP_TIERS
+STEP_TIERS = {}
+def _step(name, kind, o, ls, sp):
+    tiers = STEP_TIERS.get(name, T if os.environ.get("VERIF_EXPERIMENTAL") else [])
+    what = ("one %s certificate for a symbolic slot" % o) if kind == "cert" else ("add_parent(%d -> %d)" % sp)
+    return {"name": name, "path": MOD, "tiers": tiers, "role": "inductive step/" + ("certificate" if kind == "cert" else "parent link") + " over link structure " + _gen.tag(ls),
+            "functions": ["FinalityTracker::{add_parent,mark_notarized,mark_fast_finalized,mark_finalized,handle_finalized_block,handle_implicitly_finalized,prune}"],
+            "bounds": "slots 0..2, parent links fixed to " + _gen.arr(ls) + " (X = unknown); certificates seen so far arbitrary but consistent; tracker state = F(G); " + what,
+            "covers": 3, "timeout": {"quick": 600, "thorough": 1500}, "mem_gb": 14,
+            "cbmc_args": ["--unwindset", "memcmp.0:34", "--max-field-sensitivity-array-size", "8"]}
+STEP_HARNESSES = [_step(*x) for x in _gen.names(3)]
 SPEC = {
     "property": "C08",
     "level_text": "Bounded symbolic verification of the real FinalityTracker against a reference function F written from the property statement (directly finalized = fast-final or final+notar; watermark = end of the decided prefix; each slot reported once; highest finalized slot monotone): on a fresh tracker, every order in which the notarization, fast-finalization and finalization certificates of one slot can arrive (2-3 operations of symbolic kind) leaves the tracker in exactly the state F prescribes and reports exactly the newly finalized slot, once. The solver decides all orders at once; counterexamples are replayed on the real std BTreeMap. Parent links / implicit finalization of ancestors are NOT covered: one operation with a symbolic ancestor walk costs > 3 M symex steps and exceeds the memory cap (measured; DESIGN.md C08).",
@@ -65,5 +78,5 @@ SPEC = {
          "stubs": [PC.SIGN_STUB, "log::max_level", "consensus::pool::PoolImpl::add_valid_cert"], "timeout": {"quick": 900, "thorough": 1800}, "mem_gb": 14,
          "functions": ["PoolImpl::add_cert (up to the hand-over to add_valid_cert)", "PoolImpl::{prune,first_unpruned_slot,finalized_slot,slot_state}", "FinalityTracker::{mark_fast_finalized,mark_finalized,mark_notarized,first_unpruned_slot,highest_finalized_slot}", "SlotState::add_cert", "ParentReadyTracker::prune"],
          "bounds": "fresh pool, 2 validators; slot 1 notarized + finalized, slot 2 open (told to the real tracker, then prune); one new certificate (kind fixed per harness: notarization / finalization / skip / notarization) for a slot ranging over all of u64; add_valid_cert cut by a recording stub; pool.rs compiled without its async plumbing (see pool_common.py)"},
-    ],
+    ] + STEP_HARNESSES,
 }
